@@ -24,7 +24,7 @@ DEPTHS = (1, 2, 4, 8, 32)
 
 def REQUIRED(tier):
     return ["files_cleaned", "hook:apply_mask", "hook:apply_method", "hook:apply_funcn", "mask_union_checks", "vectors:mad", "vectors:iqrm", "vector:all_equal", "vector:planted_outlier",
-            "file_samples_compared", "regime:multi_block", "roundtrip_checks", "freq:empty_list", "freq:outside_band", "freq:overlapping", "freq:limit_on_centre", "algebra_histories"]
+            "file_samples_compared", "regime:multi_block", "roundtrip_checks", "freq:empty_list", "freq:outside_band", "freq:overlapping", "freq:limit_on_centre", "algebra_histories", "regime:subrange_cleaned"]
 
 
 def cases(tier, seed):
@@ -190,15 +190,21 @@ def _file(case, ctx):
 
     mval = None if rng.random() < 0.5 else float(rng.integers(0, top + 1))
     gulp = int(rng.choice([1, 7, max(1, N // 3), N, 10 * N]))
+    srng = np.random.default_rng([case["seed"], 161])
+    start, nsel = 0, N
+    if srng.random() < 0.35:   # clean only a sub-range of the file
+        start = int(srng.integers(1, N // 3))
+        nsel = int(srng.integers(N // 3, N - start + 1))
+        ctx.count("regime:subrange_cleaned")
     one = dict(case, params={"nbits": nbits, "nchans": nch, "N": N, "method": method, "threshold": thr, "freq_class": fcls, "freq_mask": franges,
-                             "custom": cust_k, "mask_value": mval, "gulp": gulp, "nfiles": nfiles})
+                             "custom": cust_k, "mask_value": mval, "gulp": gulp, "nfiles": nfiles, "start": start, "nsamps": nsel})
     out = os.path.join(d, "clean.fil")
     _hook["events"].clear(); _hook["viol"].clear()
     ctx.evaluated()
     try:
         with np.errstate(all="ignore"):
             name, mask = fil.clean_rfi(method=method, threshold=thr, freq_mask=franges, custom_funcn=custom if cust_k else None, mask_value=mval,
-                                       outfile_name=out, gulp=gulp, quiet=True, description="v")
+                                       outfile_name=out, gulp=gulp, start=start, nsamps=nsel, quiet=True, description="v")
     except Exception as exc:  # noqa: BLE001
         ctx.violation(f"clean_rfi-raised:{type(exc).__name__}@{exc_site(exc)}", fmt_exc(exc), one)
         return
@@ -238,13 +244,18 @@ def _file(case, ctx):
         return
     # ---- cleaned file
     dd, hl, raw = sigfile.parse_file(name)
-    if dd["nbits"] != nbits or len(raw) * 8 != N * nch * nbits:
-        ctx.violation("cleaned-file-size", f"cleaned file: nbits {dd['nbits']}, {len(raw)} data bytes for {N}x{nch}", one)
+    if dd["nbits"] != nbits or len(raw) * 8 != nsel * nch * nbits:
+        ctx.violation("cleaned-file-size", f"cleaned file: nbits {dd['nbits']}, {len(raw)} data bytes for {nsel}x{nch} (range [{start},{start+nsel}) of {N})", one)
         return
     Y = sigfile.decode_data(raw, nbits, nch).astype(np.float64)
-    Xf = X.astype(np.float64)
+    Xf = X.astype(np.float64)[start : start + nsel]
+    # the statistics the mask was built from must describe the cleaned range
+    ref_mean = Xf.mean(axis=0)
+    if np.any(np.abs(np.asarray(mask.chan_mean, dtype=np.float64) - ref_mean) > 1e-3 * np.maximum(1.0, np.abs(ref_mean))):
+        ctx.violation("mask-statistics-of-wrong-range", f"RFIMask.chan_mean does not describe samples [{start},{start+nsel}) that were cleaned", one)
+        return
     ctx.count("file_samples_compared", int(Y.size))
-    if max(gulp, 1) < N:
+    if max(gulp, 1) < nsel:
         ctx.count("regime:multi_block")
     keep = ~cm
     if not np.array_equal(Y[:, keep], Xf[:, keep]):
@@ -256,7 +267,7 @@ def _file(case, ctx):
         if mval is not None:
             if not np.all(masked == mval):
                 t, c = (int(v) for v in np.argwhere(masked != mval)[0])
-                ctx.violation("masked-sample-not-mask-value", f"sample {t} of masked channel {int(np.flatnonzero(cm)[c])} is {masked[t, c]}, mask value {mval} (gulp={gulp}, block {t // max(1, min(gulp, N))})", one)
+                ctx.violation("masked-sample-not-mask-value", f"sample {t} of masked channel {int(np.flatnonzero(cm)[c])} is {masked[t, c]}, mask value {mval} (gulp={gulp}, block {t // max(1, min(gulp, nsel))})", one)
                 return
         elif not keep.any():
             ctx.skip("all channels masked: the default mask value (median of unmasked channel means) is undefined")
